@@ -129,7 +129,8 @@ def strat(force_pb=False):
                 return draw(pos16())
             if mode == "array":
                 return [draw(pos16())]
-            return {k: draw(pos16()) for k in keys}
+            # per-key dictionaries are written in an arbitrary key order (not necessarily the order of u_dict)
+            return {k: draw(pos16()) for k in draw(st.permutations(list(keys)))}
 
         w["dyn_loss"] = wspec(enames)
         # ---- per-unknown constraints
